@@ -5,6 +5,7 @@
 //! Every random choice comes from proptest (seeded from `--seed`/`--shard`/section name);
 //! nothing here reads the clock for anything but `wall_s` and optional time budgets.
 
+pub mod crash;
 pub mod worker;
 
 use std::collections::{BTreeMap, HashSet};
@@ -216,6 +217,7 @@ impl Harness {
     /// Parses `--property --tier --seed --shard --nshards --out --replay --section --budget-s`.
     pub fn from_args(default_property: &str) -> Self {
         install_quiet_hook();
+        crash::install();
         let args: Vec<String> = std::env::args().collect();
         let get = |k: &str| -> Option<String> {
             args.iter()
@@ -353,7 +355,9 @@ impl Harness {
             known_open: self.open_signatures(),
             ..Ctx::default()
         };
+        crash::set_current(&self.property, section, case);
         let res = catch_unwind(AssertUnwindSafe(|| f(case, &mut ctx)));
+        crash::clear_current();
         let verdict = match res {
             Ok(v) => v,
             Err(p) => Err(Failure::new(
